@@ -372,6 +372,7 @@ theorem usersOf_of_load (b : Backend) (fs : FS) (t : Text) (us : List Formats.Us
   unfold usersOf
   rw [hr]
   dsimp only
+  unfold usersOfText
   unfold Formats.loadUsers Formats.loadWith at hl
   simp only at hl
   split at hl
